@@ -6,7 +6,7 @@ VARIABLES hist, done
 K4 == <<"tA/a", "tA/b", "tB/a", "tB/b">>
 GenDepth == IF "GEN_DEPTH" \in DOMAIN IOEnv THEN atoi(IOEnv.GEN_DEPTH) ELSE 30
 gvars == <<vars, hist, done>>
-Classes == <<"write", "write", "write", "write", "start", "cleanup", "cleanup", "ext", "ext", "restart">>
+Classes == <<"write", "write", "write", "write", "start", "cleanup", "cleanup", "ext", "ext", "restart", "twin", "twin", "twin">>
 WOps == <<"create", "modify", "modify", "teardown", "destroy">>
 XOps == <<"xcreate", "xaddfin", "xaddfin", "xremfin", "xdestroy">>
 Cmd(c, k, ks) == [c |-> c, k |-> k, ks |-> ks]
@@ -17,7 +17,12 @@ GenStep ==
   \E cl \in {Classes[RandomElement(1..Len(Classes))]}, k \in {RandomElement(KeySet)}, ks \in {RandomElement(KindLists)},
      w \in {WOps[RandomElement(1..Len(WOps))]}, x \in {XOps[RandomElement(1..Len(XOps))]} :
      /\ UNCHANGED done
-     /\ IF cl = "write" THEN Write(w, k) /\ hist' = Append(hist, Cmd(w, k, <<>>))
+     /\ IF cl # "twin" THEN UNCHANGED tw ELSE TRUE
+     /\ IF cl = "twin"
+        THEN \E t \in {IF tw.tracking THEN RandomElement({"tmodify", "tcleanup"}) ELSE RandomElement({"tstart", "tstart", "tmodify"})} :
+               /\ (CASE t = "tstart" -> TStart [] t = "tmodify" -> TModify [] OTHER -> TCleanup)
+               /\ hist' = Append(hist, Cmd(t, "tA/a", <<>>))
+        ELSE IF cl = "write" THEN Write(w, k) /\ hist' = Append(hist, Cmd(w, k, <<>>))
         ELSE IF cl = "start" THEN Start /\ hist' = Append(hist, Cmd("start", "tA/a", <<>>))
         ELSE IF cl = "cleanup" THEN Cleanup(ks) /\ hist' = Append(hist, Cmd("cleanup", "tA/a", ks))
         ELSE IF cl = "restart" THEN Restart /\ hist' = Append(hist, Cmd("restart", "tA/a", <<>>))
